@@ -159,8 +159,8 @@ EXTRA_NAMES = ["e1", "zip", "price", "flag", "when", "note", "aa"]
 
 @st.composite
 def index_labels(draw, n):
-    kind = draw(st.sampled_from(["range", "range", "offset", "str", "float", "dup", "perm",
-                                 "neg"]))
+    kind = draw(st.sampled_from(["range", "range", "offset", "str", "float", "dup", "dup",
+                                 "perm", "neg"]))
     if kind == "range":
         return list(range(n))
     if kind == "offset":
